@@ -378,6 +378,17 @@ def _softabs_param(spec, n):
 
 def metric_dense(spec, n):
     """Dense reference of a constant metric spec (no mici involved)."""
+    M = _metric_dense_plain(spec, n)
+    via = spec.get("via")
+    if via and spec["type"] not in ("none", "diag_array", "dense_array"):
+        if via["how"] == "times-c":
+            M = via["c"] * M
+        elif via["how"] == "over-c":
+            M = M / via["c"]
+    return M
+
+
+def _metric_dense_plain(spec, n):
     t = spec["type"]
     if t in ("none", "identity"):
         return np.eye(n)
@@ -411,7 +422,7 @@ def metric_dense(spec, n):
 
 
 VIA_WARM = ["eigval", "eigvec", "sqrt", "log_abs_det", "inv", "array", "diagonal", "T"]
-VIA_HOW = ["of-inverse", "inv-inv", "scale-unscale", "unscale-scale", "T"]
+VIA_HOW = ["of-inverse", "inv-inv", "scale-unscale", "unscale-scale", "T", "times-c", "over-c"]
 
 
 def build_metric(spec, n):
@@ -451,6 +462,10 @@ def build_metric(spec, n):
         Y = M / c
         warm(Y)
         return Y * c
+    if how == "times-c":        # the metric IS c * M (metric_dense accounts for the factor)
+        return c * M if via.get("side", "l") == "l" else M * c
+    if how == "over-c":
+        return M / c
     return M.T
 
 
@@ -469,11 +484,11 @@ def _build_metric_plain(spec, n):
     if t == "diag":
         return mm.PositiveDiagonalMatrix(A(spec["d"]))
     if t == "dense_array":
-        return metric_dense(spec, n)
+        return _metric_dense_plain(spec, n)
     if t == "dense":
-        return mm.DensePositiveDefiniteMatrix(metric_dense(spec, n))
+        return mm.DensePositiveDefiniteMatrix(_metric_dense_plain(spec, n))
     if t == "dense_factor":
-        M = metric_dense(spec, n)
+        M = _metric_dense_plain(spec, n)
         return mm.DensePositiveDefiniteMatrix(M, factor=mm.TriangularMatrix(np.linalg.cholesky(M), lower=True))
     if t in ("chol_lower", "chol_upper"):
         L = A(spec["L"]).reshape(n, n)
